@@ -27,6 +27,7 @@ ASSUMPTIONS = [
     'name validity is only demanded when the prefix is <= 189 characters (documented limit)',
 ]
 BUDGET = {'quick': 300, 'thorough': 15000}
+FUZZ_RUNS = {'thorough': 8000}     # inputs per process of the coverage-guided stage (tools/fuzz.py), 16 processes
 MAX_SHARDS = 16
 
 ALPHABET = 'abcxyzABC019_./<>-'
